@@ -367,7 +367,9 @@ __strfdt_card(
 	case DT_SPFL_N_EPOCH:
 	case DT_SPFL_N_EPOCHNS: {
 		/* convert to sexy */
-		int64_t sexy = dt_conv_to_sexy(that).sexy;
+		/* THAT has been moved into its zone for printing, the epoch
+		 * is counted in UTC however */
+		int64_t sexy = dt_conv_to_sexy(that).sexy - d->zdiff;
 		res = snprintfd(snprintf(buf, bsz, "%" PRIi64, sexy), bsz);
 		break;
 	}
